@@ -60,8 +60,7 @@ func (p *RemovePlan) processKey(ekvp KVPair, ctx *ExecuteCtx, kexpr Expression) 
 	if err != nil {
 		return nil, err
 	}
-	key := []byte(toString(rkey))
-	return key, nil
+	return writableBytes(kexpr, rkey)
 }
 
 func (p *RemovePlan) execute(ctx *ExecuteCtx) (int, error) {
